@@ -426,6 +426,22 @@ def _merge_sep(opaque_body, elt_parts):
 def r16_4(ctx, f, rec, n, extras, schema, key_colon):
     tags_attr = extras["tags_attr"]
     st, var, handle, region, out = emit.templates_of(ctx, f, rec, n, tags_attr, "R16.4")
+    # a finished output line remembered under a key made of the record's columns and reused for a later record with the same
+    # key: the later record's own optional fields (which the key leaves out) are replaced by those of the first
+    if var is not None:
+        for s_ in walk_own(f.node):
+            if isinstance(s_, ast.Assign) and isinstance(s_.targets[0], ast.Subscript) and isinstance(s_.targets[0].value, ast.Name) and var in {x_.id for x_ in ast.walk(s_.value) if isinstance(x_, ast.Name)}:
+                d_ = s_.targets[0].value.id
+                k_ = s_.targets[0].slice
+                kdef = k_
+                if isinstance(k_, ast.Name):
+                    ds_ = [a_.value for a_ in walk_own(f.node) if isinstance(a_, ast.Assign) and len(a_.targets) == 1 and norm(a_.targets[0]) == k_.id]
+                    kdef = ds_[0] if len(ds_) == 1 else k_
+                is_local_dict = any(isinstance(a_, ast.Assign) and norm(a_.targets[0]) == d_ and isinstance(a_.value, (ast.Dict, ast.Call)) and norm(a_.value) in ("{}", "dict()") for a_ in walk_own(f.node))
+                attrs = {x_.attr for x_ in ast.walk(kdef) if isinstance(x_, ast.Attribute) and norm(x_.value) == rec}
+                reused = any(isinstance(c_, ast.Compare) and isinstance(c_.ops[0], ast.In) and norm(c_.comparators[0]) == d_ for c_ in walk_own(f.node)) or any(isinstance(c_, ast.Call) and isinstance(c_.func, ast.Attribute) and c_.func.attr == "get" and norm(c_.func.value) == d_ for c_ in walk_own(f.node))
+                if is_local_dict and attrs and reused and tags_attr not in attrs and not any(isinstance(x_, ast.Name) and x_.id == rec for x_ in (kdef.elts if isinstance(kdef, ast.Tuple) else [kdef])):
+                    ctx.violated("R16.4", f.where(s_), f"the finished line of a record is remembered under `{norm(kdef)[:80]}` and written again for a later record with the same key: the key leaves out the record's optional fields, so a record that agrees in those columns but carries other fields (another tp:A, another read group, another score) comes out with the fields of the first", key_of(f, f"memo-key-without-tags:{d_}"))
     if not out:
         raise AnalysisError("R16.4", f.where(st), "no path emits the record")
     seen = set()
